@@ -50,6 +50,11 @@ struct Registrar {
 	explicit Registrar(Property *p) { register_property(p); }
 };
 
+// A judge that enumerates sub-cases of a plan (k-th allocation, cut point, ...) announces each one before
+// executing it, as a JSON Patch that turns the enumerating plan into the explicit one.  If the process dies
+// inside the sub-case the driver rebuilds the narrowed plan from the last announcement.
+void note_subcase(const json &patch);
+
 // helpers shared by judges
 uint64_t plan_fingerprint(const json &plan); // content hash ignoring seed / violation metadata
 
